@@ -158,6 +158,9 @@ func baseMsgs() []msgIn {
 		{"", "empty"},
 		{"plain ascii message", "ascii"},
 		{"50% done", "pct-middle"},
+		// printable ASCII only, '%' followed by two hex digits: decodes to
+		// something else unless the '%' itself is escaped
+		{"shelves%2F1 is %41", "pct-hex-ascii"},
 	}
 }
 
@@ -184,6 +187,9 @@ func allMsgs(thorough bool) []msgIn {
 		{"%done", "pct-start"},
 		{"50% done", "pct-middle"},
 		{"done 100%", "pct-end"},
+		{"shelves%2F1", "pct-hex-ascii"},
+		{"%41", "pct-hex-only"},
+		{"rate 100%25", "pct-hex-end"},
 		{"naïve café ✓", "utf8-tail"},
 		{"tail is four bytes 😀", "utf8-tail4"},
 		{"é at start, ascii after", "utf8-then-ascii"},
